@@ -206,7 +206,7 @@ def parse (d : Deps) (c : Array Nat) : M JVal := do
 structure DepsSafe (d : Deps) : Prop where
   unEscape_ok : ∀ (c : Array Nat) (start len : Nat), start + len ≤ c.size →
     ∃ r s, d.unEscape c start len = .ok (r, s) ∧ r ≤ len
-  strToNum_ok : ∀ (c : Array Nat) (offset : Nat), offset < c.size →
+  strToNum_ok : ∀ (c : Array Nat) (offset : Nat), c.size < 2 ^ 32 → offset < c.size →
     ∃ r, d.strToNum c offset c.size = .ok r ∧
       (r.kind ≠ .notANumber → offset < r.newOffset ∧ r.newOffset ≤ c.size)
 
